@@ -297,6 +297,15 @@ def main():
     fm = re.search(r"\bfuel\s*:\s*([0-9_]+)\s*,", strip_comments(block_after(pm, r"impl<'src>\s+From<Tokenizer<'src>>\s+for\s+ParserImpl<'src>\s*\{", "ParserImpl::from")[0]))
     if not fm: raise TranslateError("ParserImpl::from: initial fuel not found")
     fuel = int(fm.group(1).replace("_", ""))
+    # the fuel is per file: decremented by one in begin(), never given back
+    pm_nc = strip_comments(pm)
+    uses = re.findall(r"self\.fuel\b[^;{]*", pm_nc)
+    dec = re.search(r"if let Some\(fuel\) = self\.fuel\.checked_sub\(1\) \{\s*self\.fuel = fuel;\s*\} else \{\s*self\.state = State::OutOfFuel;\s*\}", pm_nc)
+    if not dec or len(uses) != 2:
+        raise TranslateError(f"parser fuel: expected exactly `if let Some(fuel) = self.fuel.checked_sub(1) {{ self.fuel = fuel; }} else {{ self.state = State::OutOfFuel; }}` (in begin) and no other use of self.fuel; found {uses}")
+    begin_body = strip_comments(fn_body(pm, "begin"))
+    if "self.fuel.checked_sub(1)" not in begin_body:
+        raise TranslateError("parser fuel: the decrement is no longer in ParserImpl::begin")
 
     # grammar section: the impl block that follows the `t!` macro
     mi = pm.find("macro_rules! t {")
@@ -350,7 +359,7 @@ def main():
     L.append("  | _ => K.UNKNOWN\n  end.\n")
     L.append("(* Token::is_trivia *)\nDefinition is_trivia (t : N) : bool := " + " || ".join(f"(t =? T.{t})" for t in trivia) + ".\n")
     L.append("Definition yara_cfg : config := mkConfig kind_tid tok_kind is_trivia K.ERROR K.SOURCE_FILE.\n")
-    L.append(f"(* ParserImpl::from: initial fuel *)\nDefinition parser_fuel : N := {fuel}.\n")
+    L.append(f"(* ParserImpl::from: initial fuel. It is per file: one unit is taken by every begin() (nowhere else) and it\n   is never given back, not even between top-level items *)\nDefinition parser_fuel : N := {fuel}.\n")
     L.append("Inductive nonterminal :=\n" + "\n".join(f"| NT_{n}" for n in order) + ".\n")
     L.append("Definition grammar (n : nonterminal) : prog nonterminal :=\n  match n with")
     for n in order:
